@@ -504,7 +504,7 @@ func Generate(seed uint64, opt GenOptions) *Scenario {
 				case n < 9 && fParent:
 					op.Ctx = "parent"
 				case fCancel:
-					op.Ctx = "cause"
+					op.Ctx = g.pick("cause", "farcancel")
 				}
 				if g.chance(faultRate) {
 					f := &Fault{Err: "canceled"}
